@@ -20,7 +20,8 @@ import shutil
 import sys
 import tempfile
 
-NAMES = "abcd"
+# component names; some are plain string prefixes of others (a/ab/abc, a/a_b) so that prefix-vs-segment mistakes in key matching show
+NAMES = ["a", "b", "c", "d", "ab", "abc", "a_b", "ba"]
 NPAR = 8
 
 MODULE_HEAD = '''
@@ -70,7 +71,7 @@ def module_text():
     plist = ", ".join("l%d" % i for i in range(NPAR))
 
     def cls(name, unit, sub=None):
-        group_class = name.split("_", 1)[1] in ("G", "GN", "GNN")
+        group_class = name[len(n) + 1:] in ("G", "GN", "GNN")
         out.append(BODY.format(cls=name, unit=unit, params=PARAMS_INT if group_class else PARAMS_ANY, plist=plist,
                                sub=("%s: %s, " % sub) if sub else ""))
 
